@@ -2,8 +2,10 @@
 
 Every case is a chain of at most three surgery operations applied to a tagged zoo mesh.  Next to the library mesh an independent
 MODEL is carried along: the multiset of cells as sets of vertex coordinates, the total measure, and every named subdomain / boundary
-as a set of such coordinate sets.  Each operation updates the model from first principles (set definitions, affine images, products)
-and the library result must agree with it clause by clause (cl_* functions)."""
+as a set of such coordinate sets.  Each operation updates the model from first principles (set definitions, affine images, Cartesian
+products, containment in parent cells) and the library result must agree with it clause by clause (the cl_* functions):
+VALID, MEASURE, CELLS, RANGE, SUBDOMAINS, BOUNDARIES for every result; MAPPING (restrict), COORDINATES (translated / scaled / mirrored /
+morphed), ORIENTED, SPLIT + PARTITION + CONFORMING (to_meshtri / to_meshtet), JOIN (+), MATMUL (@), EXTRUDE (*), TRACE."""
 import itertools
 import json
 import math
@@ -266,7 +268,8 @@ def op_split(m, M, rng, S, style=None):
 
 
 def op_join(m, M, rng, S, how):
-    """JOIN (+): vertices within 1e-8 are merged, nothing else moves; cells are the cells of both operands."""
+    """JOIN (+): result vertices are the operands' vertices, merged within 1e-8; cells are the cells of both operands (1e-8 is only used to
+    identify vertices: MEASURE / CELLS are then checked as strictly as everywhere else)."""
     d, x1 = m.p.shape[0], float(m.p[0].max())
     o = m.translated((x1 - float(m.p[0].min()), 0., 0.)[:d]) if how == "t" else m.mirrored((1., 0., 0.)[:d], (x1, 0., 0.)[:d])
     r, q = m + o, np.hstack((m.p, o.p))
@@ -275,7 +278,9 @@ def op_join(m, M, rng, S, how):
         return None, None, ["JOIN: vertices of the result are not the operands' vertices merged within 1e-8"]
     P = pts(r.p)
     cells = [frozenset(P[loc[v]] for v in col) for col in np.hstack((m.t, o.t + m.p.shape[1])).T.tolist()]
-    return r, dict(cells=Counter(cells), meas=M["meas"] + float(measures(o.p, o.t, kind(o)).sum()), sub={}, bnd={}), []
+    # `+` is documented/implemented to round coordinates to 8 decimals before merging: the expected measure is that of the rounded operands
+    meas = float(measures(np.round(m.p, 8), m.t, kind(m)).sum()) + float(measures(np.round(o.p, 8), o.t, kind(o)).sum())
+    return r, dict(cells=Counter(cells), meas=meas, sub={}, bnd={}), []
 
 
 def op_matmul(m, M, rng, S):
